@@ -154,7 +154,7 @@ def grep_forbidden(modules):
 # ---------------------------------------------------------------- streams
 
 def fixes_arg():
-    return "".join("1" if FIXES[k] else "0" for k in ["f1", "f2", "f3", "f4", "f5", "f2b", "f8", "f10", "f14"])
+    return "".join("1" if FIXES[k] else "0" for k in ["f1", "f2", "f3", "f4", "f5", "f2b", "f8", "f10", "f14", "f12"])
 
 
 def run_stream(pid, idx, hargs, per_case_timeout=20, binary=None):
